@@ -880,7 +880,7 @@ class VM:
                 else:
                     # Create prototype object for the function
                     # In JavaScript, every function has a prototype property
-                    prototype = JSObject()
+                    prototype = JSObject(self._object_prototype())
                     prototype.set("constructor", js_func)
                     js_func._prototype = prototype
 
@@ -1333,6 +1333,11 @@ class VM:
             return UNDEFINED
 
         return UNDEFINED
+
+    def _object_prototype(self) -> Optional[JSObject]:
+        """Object.prototype of this context."""
+        object_constructor = self.globals.get("Object")
+        return getattr(object_constructor, "_prototype", None)
 
     def _has_own_property(self, obj: JSValue, key_str: str) -> bool:
         """Does the object itself (not its prototype chain) have the property?"""
@@ -2782,9 +2787,9 @@ class VM:
         if isinstance(constructor, JSFunction):
             if hasattr(constructor, "_lexical_this"):
                 raise JSTypeError("An arrow function is not a constructor")
-            # Create new object
-            obj = JSObject()
-            # Set prototype from constructor's prototype property
+            # Create new object; its prototype is the constructor's prototype
+            # property, or Object.prototype if that is not an object
+            obj = JSObject(self._object_prototype())
             if isinstance(getattr(constructor, "_prototype", None), JSObject):
                 obj._prototype = constructor._prototype
             # Call constructor with new object as 'this'
